@@ -249,6 +249,9 @@ class LevyKhintchine(Lemma):
         corr = cutoff_integrals(rep_name, nu_pos, nu_neg, z)
         vc.check_zero(nm + "::first-derivative-at-0-is-the-mean-of-the-declared-representation",
                       lambda: zero_form(-I * sp.diff(psi, x).subs(x, 0) - (a0 + corr)), samp0)
+        # direct simulation of the Levy model itself: x0 + process_drift t + sigma W + the (uncompensated / compensated as
+        # declared) jumps must have the mean rate of the exponent, i.e. the stated simulation drift is the declared drift
+        vc.check_zero(nm + "::simulation-drift-of-the-levy-model-is-the-declared-drift", lambda: zero_form(to_sp(vc.method(model, "process_drift")) - to_sp(trip.fields["a"])), samp0)
         # second derivative along the imaginary axis x = i s (0 < s small): e^{ixz} = e^{-sz} is a real Laplace kernel the CAS
         # integrates in closed form; both sides are analytic in x on the strip where the exponential moments exist, so the
         # identity on that segment is the identity for every x (identity theorem, A6)
@@ -264,7 +267,7 @@ class LevyKhintchine(Lemma):
         return native_lk_replay(case, clause)
 
 
-def native_model(case, exponential=False):
+def native_model(case, exponential=False, reinit=False):
     import importlib
     regime = REGIMES[case]
     pt = {str(k): float(v) for k, v in regime["sample"].items()}
@@ -280,6 +283,8 @@ def native_model(case, exponential=False):
             return cls(e[0])(spot=90.0, r=0.03, d=0.01, parameters=cls(e[1])(sigma=kw["sigma"]))
         return cls(spec[0])(**kw)
     par = cls(spec[1])(**{k: val(v) for k, v in spec[2].items()})
+    if reinit:
+        par.initialisation()
     if exponential:
         return cls(regime["exp"])(spot=90.0, r=0.03, d=0.01, parameters=par)
     return cls(spec[0])(par)
@@ -309,6 +314,9 @@ def native_lk_replay(case, clause=""):
         return 1j * x * a0 - 0.5 * (sg * x) ** 2 + tot
     ex = lambda x: complex(m.levy_exponent(x))
     info = {"model": repr(m), "declared_representation": rep, "declared_drift": float(a0)}
+    if "simulation-drift" in clause:
+        pdv = float(m.process_drift())
+        return (abs(pdv - float(trip.a)) > 1e-12, {**info, "process_drift": pdv})
     if "psi(0)" in clause:
         v = ex(0.0)
         return (abs(v) > 1e-12, {**info, "levy_exponent(0)": [v.real, v.imag]})
@@ -378,23 +386,28 @@ class Martingale(Lemma):
     model states its own drift for direct simulation (Black-Scholes, HEM, Merton): drift + sigma^2/2 + int (e^z - 1) nu(dz)
     = r - d, the jump integral taken over the code's own density (exact jump law)."""
     prop = "C10"
-    cases = tuple(REGIMES)
+    cases = tuple((r_, route) for r_ in REGIMES for route in ("constructed", "re-initialised"))
 
     def __init__(self):
         self.name = "property:discounted-spot-is-a-martingale"
 
-    def prove(self, vc, case):
+    def prove(self, vc, case_route):
+        case, route = case_route
         regime = REGIMES[case]
-        nm = f"{self.name}[{case}]"
+        nm = f"{self.name}[{case},{route} parameters]"
         install_oracle(vc, regime, nm)
         spot, r, d, t = S("spot", positive=True), S("r", positive=True), S("d", positive=True), S("t", positive=True)
         e = regime["exp"]
         if isinstance(e, tuple):
             par = vc.new(e[1], **e[2])
+            if route == "re-initialised":
+                vc.method(par, "initialisation")        # the calibration / parameter-update route
             model = vc.new(e[0], SpVal(spot), SpVal(r), SpVal(d), par)
         else:
             spec = regime["levy"]
             par = vc.new(spec[1], **regime.get("exp_params", spec[2]))
+            if route == "re-initialised":
+                vc.method(par, "initialisation")        # the calibration / parameter-update route
             model = vc.new(e, SpVal(spot), SpVal(r), SpVal(d), par)
         samp = numeric_point(regime, {spot: lambda g: g.uniform(50, 150), r: lambda g: g.uniform(0.0, 0.08), d: lambda g: g.uniform(0.0, 0.05), t: lambda g: g.uniform(0.1, 3.0)})
         cf = to_sp(vc.method(model, "log_characteristic_function", SpVal(t), -1j))
@@ -412,8 +425,9 @@ class Martingale(Lemma):
             drift = to_sp(vc.method(model, "process_drift"))
             vc.check_zero(nm + "::direct-simulation-drift-compensates-diffusion-and-jumps", lambda: sp.simplify(drift + sigma ** 2 / 2 + jump - (r - d)), samp)
 
-    def replay(self, model, clause, case):
-        m = native_model(case, exponential=True)
+    def replay(self, model, clause, case_route):
+        case, route = case_route
+        m = native_model(case, exponential=True, reinit=(route == "re-initialised"))
         T = 0.8
         fwd = np.exp((m.r - m.d) * T)
         got_cf = complex(m.log_characteristic_function(t=T, x=-1j, log_spot=0))
